@@ -245,7 +245,7 @@ package runtime
 //@ params p
 //@ props C10
 //@ arith int
-//@ lock Chan.mutex protects p.getp, p.len, p.close, p.sends, p.selsends, p.sops, p.data
+//@ lock Chan.mutex protects p.getp, p.len, p.close, p.sends, p.selsends, p.sops, p.data, p.handoffs
 //@ lock Chan.mutex invariant inv: chaninv(p, nil, 0)
 //@ ensures C10 nil: p == nil ==> n == 0
 //@ ensures C10 len: p != nil ==> n == cs_old(p.len) && 0 <= n && n <= p.cap
@@ -263,7 +263,7 @@ package runtime
 //@ props C10 C03
 //@ arith int
 //@ opt panic_writes allowed
-//@ lock Chan.mutex protects p.getp, p.len, p.close, p.sends, p.selsends, p.sops, p.data, bytes(chanbuf(p), p.cap*eltSize)
+//@ lock Chan.mutex protects p.getp, p.len, p.close, p.sends, p.selsends, p.sops, p.data, p.handoffs, bytes(chanbuf(p), p.cap*eltSize)
 //@ lock Chan.mutex invariant inv: chaninv(p, v, eltSize)
 //@ requires chanpre(p, v, eltSize) && v != nil
 //@ loop 1 invariant inv: chaninv(p, v, eltSize) && p.cap == 0
@@ -282,7 +282,7 @@ package runtime
 //@ props C10 C03
 //@ arith int
 //@ opt implicit_panics allowed
-//@ lock Chan.mutex protects p.getp, p.len, p.close, p.sends, p.selsends, p.sops, p.data
+//@ lock Chan.mutex protects p.getp, p.len, p.close, p.sends, p.selsends, p.sops, p.data, p.handoffs
 //@ lock Chan.mutex invariant inv: chaninv(p, nil, 0)
 //@ ensures_panic C03 panics-only-when-nil-or-closed: p == nil || cs_old(p.close)
 //@ ensures C03 closed-close-does-not-return: p != nil && !cs_old(p.close)
@@ -294,7 +294,7 @@ package runtime
 //@ props C10 C03
 //@ arith int
 //@ opt panic_writes allowed
-//@ lock Chan.mutex protects p.getp, p.len, p.close, p.sends, p.selsends, p.sops, p.data, bytes(chanbuf(p), p.cap*eltSize)
+//@ lock Chan.mutex protects p.getp, p.len, p.close, p.sends, p.selsends, p.sops, p.data, p.handoffs, bytes(chanbuf(p), p.cap*eltSize)
 //@ lock Chan.mutex invariant inv: chaninv(p, v, eltSize)
 //@ requires chanpre(p, v, eltSize) && v != nil
 //@ ensures C03 closed-send-does-not-return: !cs_old(p.close)
@@ -311,7 +311,7 @@ package runtime
 //@ locals n
 //@ props C10
 //@ arith int
-//@ lock Chan.mutex protects p.getp, p.len, p.close, p.sends, p.selsends, p.sops, p.data, bytes(chanbuf(p), p.cap*eltSize)
+//@ lock Chan.mutex protects p.getp, p.len, p.close, p.sends, p.selsends, p.sops, p.data, p.handoffs, bytes(chanbuf(p), p.cap*eltSize)
 //@ lock Chan.mutex invariant inv: chaninv(p, v, eltSize)
 //@ requires chanpre(p, v, eltSize) && p.cap > 0
 //@ loop 1 invariant inv: false
@@ -328,7 +328,7 @@ package runtime
 //@ locals n
 //@ props C10
 //@ arith int
-//@ lock Chan.mutex protects p.getp, p.len, p.close, p.sends, p.selsends, p.sops, p.data, bytes(chanbuf(p), p.cap*eltSize)
+//@ lock Chan.mutex protects p.getp, p.len, p.close, p.sends, p.selsends, p.sops, p.data, p.handoffs, bytes(chanbuf(p), p.cap*eltSize)
 //@ lock Chan.mutex invariant inv: chaninv(p, v, eltSize)
 //@ requires chanpre(p, v, eltSize) && p.cap > 0
 //@ loop 1 invariant inv: false
